@@ -32,6 +32,7 @@ def handler(job):
             kw["stop"] = job["stop"]
         est = PersistenceLandscaper(**kw)
         attrs = lambda: [None if est.start is None else fl(est.start), None if est.stop is None else fl(est.stop)]
+        init = attrs()
         for op, ds in job["ops"]:
             X = data(ds)
             before = [x.tobytes() for x in X]
@@ -49,6 +50,7 @@ def handler(job):
                          fl(est.width), fl(est.height), int(est.resolution[0]), int(est.resolution[1])]
         skew = bool(job.get("skew", 1))            # False: the data are handed over as (birth, persistence) pairs in every call of the history
         njobs = job.get("njobs") or [0] * len(job["ops"])
+        init = attrs()
         for (op, ds), nj in zip(job["ops"], njobs):
             X = data(ds)
             single = len(X) == 1 and job.get("single_as_array", True)
@@ -64,7 +66,7 @@ def handler(job):
                 imgs = [r] if single else list(r)
                 outs = [[1000 * ds + j, dig(im)] for j, im in enumerate(imgs)]
             evs.append(dict(op=op, ds=ds, attrs=attrs(), statekey=dig_state(attrs()), outs=outs, mutated=[x.tobytes() for x in X] != before))
-    return {"events": evs}
+    return {"events": evs, "init": init}
 
 
 serve(handler)
